@@ -30,6 +30,8 @@ func main() {
 		funcs(os.Args[2:])
 	case "effects":
 		effects()
+	case "matrix":
+		matrix()
 	default:
 		fmt.Fprintln(os.Stderr, "unknown command", os.Args[1])
 		os.Exit(2)
@@ -182,4 +184,42 @@ func effects() {
 	for _, k := range ks {
 		fmt.Printf("%4d %s\n", cnt[k], k)
 	}
+}
+
+// matrix runs every registered checker on one load and prints the violated obligations
+// per property (no evidence is written). Used to record which checks catch a seeded change.
+func matrix() {
+	P, err := core.Load(core.RepoDir(), nil)
+	if err != nil {
+		fmt.Println("LOAD-ERROR", err)
+		os.Exit(3)
+	}
+	for _, id := range rules.IDs() {
+		R := core.NewReport(id, "quick")
+		func() {
+			defer func() {
+				if e := recover(); e != nil {
+					R.Undecided("analyser-panic", "-", fmt.Sprint(e), "-", "panic")
+				}
+			}()
+			rules.Get(id)(P, R)
+		}()
+		v := R.Violations()
+		var ks []string
+		for _, o := range v {
+			ks = append(ks, o.Rule)
+		}
+		sort.Strings(ks)
+		fmt.Printf("%s %d %s\n", id, len(v), strings.Join(uniq(ks), ","))
+	}
+}
+
+func uniq(xs []string) []string {
+	var out []string
+	for i, x := range xs {
+		if i == 0 || x != xs[i-1] {
+			out = append(out, x)
+		}
+	}
+	return out
 }
